@@ -272,8 +272,10 @@ func (rn *runner) emitSite(st *site, res siteResult) {
 
 // ------------------------------------------------------------------ gate leak scenario
 
-// childGate repeats a failing batched stat 3 x capacity times in this one process, each
-// repetition under a watchdog, then runs a healthy 60-ref stat.
+// childGate looks for leaked semaphore slots / locks, which only show on later calls: per
+// operation kind it repeats a failing call 3 x capacity times in this one process (each
+// repetition under a watchdog) and then makes a healthy call of the same kind.  The first
+// phase is the batched stat of the property text (package-level stat gates).
 func childGate() {
 	name := os.Getenv("VERIF_C13_BACKEND")
 	def := findDef(name)
@@ -290,8 +292,9 @@ func childGate() {
 	}
 	seed := envInt("VERIF_SEED", 1)
 	uni := sto.Universe(seededRand(seed, "gate/"+name), sto.GenOpts{N: 60, MaxSize: 2000})
+	ctx := context.Background()
 	for _, b := range uni {
-		if _, err := in.S.ReceiveBlob(context.Background(), b.Ref, bytes.NewReader(b.Data)); err != nil {
+		if _, err := in.S.ReceiveBlob(ctx, b.Ref, bytes.NewReader(b.Data)); err != nil {
 			emit(record{T: "inconcl", Backend: name, What: "fill: " + err.Error()})
 			return
 		}
@@ -300,15 +303,16 @@ func childGate() {
 	for i, b := range uni {
 		refs[i] = b.Ref
 	}
+	extra := sto.Universe(seededRand(seed, "gate-extra/"+name), sto.GenOpts{N: 8, MaxSize: 500})
 	reps := 3 * def.Gate
 	const limit = 8 * time.Second
-	rec := record{T: "gate", Backend: name, Counts: map[string]int{"capacity": def.Gate, "repetitions_planned": reps, "hung_at_repetition": -1}}
+	rec := record{T: "gate", Backend: name, Counts: map[string]int{"capacity": def.Gate, "repetitions_per_phase": reps}}
 	dump := func() string {
 		buf := make([]byte, 8<<20)
 		buf = buf[:runtime.Stack(buf, true)]
 		var keep []string
 		for _, g := range strings.Split(string(buf), "\n\n") {
-			if strings.Contains(g, "perkeep.org/pkg/blobserver") && (strings.Contains(g, "Gate") || strings.Contains(g, "StatBlobs")) {
+			if strings.Contains(g, "perkeep.org/pkg/blobserver") && !strings.Contains(g, "childGate") {
 				keep = append(keep, g)
 				if len(keep) >= 3 {
 					break
@@ -317,39 +321,85 @@ func childGate() {
 		}
 		return strings.Join(keep, "\n\n")
 	}
-	hung := false
-	for i := 0; i < reps && !hung; i++ {
-		in.plan.Fault(in.plan.Calls(), inject.Error)
-		var serr error
-		ok := ev.WithTimeout(limit, func() {
-			serr = in.S.StatBlobs(context.Background(), refs, func(blob.SizedRef) error { return nil })
-		})
-		in.plan.Clear()
-		if !ok {
-			hung = true
-			rec.Counts["hung_at_repetition"] = i
-			rec.What = dump()
-			break
+	type phase struct {
+		name string
+		call func(i int) error
+	}
+	drain := func(after string, limit int) error {
+		ch := make(chan blob.SizedRef)
+		errc := make(chan error, 1)
+		go func() { errc <- in.S.EnumerateBlobs(ctx, ch, after, limit) }()
+		for range ch {
 		}
-		rec.Counts["repetitions_done"]++
-		if serr != nil {
-			rec.Counts["repetitions_failed_as_expected"]++
+		return <-errc
+	}
+	phases := []phase{
+		{"stat", func(int) error { return in.S.StatBlobs(ctx, refs, func(blob.SizedRef) error { return nil }) }},
+		{"remove", func(i int) error {
+			if !in.caps.Remove {
+				return nil
+			}
+			return in.S.RemoveBlobs(ctx, []blob.Ref{refs[50+i%10], refs[50+(i+3)%10]})
+		}},
+		{"enumerate", func(int) error { return drain("", 1000) }},
+		{"fetch", func(i int) error {
+			rc, _, err := in.S.Fetch(ctx, refs[i%50])
+			if err == nil {
+				_, err = io.Copy(io.Discard, rc)
+				rc.Close()
+			}
+			return err
+		}},
+		{"receive", func(i int) error {
+			b := extra[i%len(extra)]
+			_, err := in.S.ReceiveBlob(ctx, b.Ref, bytes.NewReader(b.Data))
+			return err
+		}},
+	}
+	for _, ph := range phases {
+		hung := false
+		for i := 0; i <= reps; i++ {
+			healthy := i == reps // the last call of a phase is made without a fault
+			if !healthy {
+				in.plan.Fault(in.plan.Calls(), inject.Error)
+			}
+			var perr error
+			var pv any
+			ok := ev.WithTimeout(limit, func() {
+				defer func() { pv = recover() }()
+				perr = ph.call(i)
+			})
+			in.plan.Clear()
+			if !ok {
+				hung = true
+				rec.Counts[ph.name+"_hung_at_repetition"] = i
+				if healthy {
+					rec.Counts[ph.name+"_healthy_call_hung"] = 1
+				}
+				rec.Notes = append(rec.Notes, ph.name)
+				if rec.What == "" {
+					rec.What = dump()
+				}
+				break
+			}
+			switch {
+			case pv != nil:
+				rec.Counts[ph.name+"_panics"]++
+			case healthy && perr != nil && !(ph.name == "remove" && !in.caps.Remove):
+				rec.Counts[ph.name+"_healthy_call_failed"]++
+			case healthy:
+				rec.Counts[ph.name+"_healthy_call_ok"]++
+			case perr != nil:
+				rec.Counts[ph.name+"_failed_as_planned"]++
+			default:
+				rec.Counts[ph.name+"_absorbed"]++
+			}
+		}
+		if !hung {
+			rec.Counts["phases_without_hang"]++
 		}
 	}
-	if !hung {
-		got := 0
-		ok := ev.WithTimeout(limit, func() {
-			in.S.StatBlobs(context.Background(), refs, func(blob.SizedRef) error { got++; return nil })
-		})
-		if !ok {
-			hung = true
-			rec.Counts["healthy_stat_hung"] = 1
-			rec.What = dump()
-		} else {
-			rec.Counts["healthy_stat_reported"] = got
-		}
-	}
-	rec.Hang = hung
+	rec.Hang = len(rec.Notes) > 0
 	emit(rec)
 	os.Stdout.Sync()
 	os.RemoveAll(root)
